@@ -32,7 +32,13 @@ type batchCfg struct {
 	Breaker    bool   `json:"circuit_breaker"`
 	Passive    bool   `json:"passive_checks"`
 	Concurrent int    `json:"concurrent_clients"` // 1 = sequential
+	// server.timeouts.handler in seconds (0 = not configured: the default of 30 s, which no request of a batch
+	// reaches). With 1, nobody releases the parked requests of the batch: the handler timeout ends them.
+	HandlerTimeout int `json:"handler_timeout_s,omitempty"`
 }
+
+// kind "slow-backend" (only in batches with the handler timeout configured): the backend has read the
+// request and stays silent until the proxy gives up on it.
 
 var kinds = []string{"ok", "ok", "4xx", "5xx", "reset-mid-body", "short-body", "abort-upload", "abort-download", "limited-client", "hold", "hold", "upgrade"}
 
@@ -123,6 +129,7 @@ func holdScript(kind string) (*lab.RespScript, int) {
 type tally struct {
 	sent, limited, breakerRejected, noHealthy, aborted, answered int
 	bad502, clientAborts, uploadAborts                           int
+	timedOut                                                     int // answered 502 by the proxy after the request had reached a live backend that stayed silent
 	upgraded                                                     int // handshakes answered 101 whose tunnel was used and ended
 }
 
@@ -151,6 +158,8 @@ func scriptFor(kind string) *lab.RespScript {
 		s.Fault = "slow-body"
 	case "hold":
 		s.Hold = true
+	case "slow-backend":
+		s.Fault = "hang-before-headers"
 	case "upgrade":
 		// a WebSocket handshake the backend accepts: the exchange becomes a tunnel
 		s = &lab.RespScript{Status: 101, Framing: "none", BarrierAfter: -1, Header: []lab.KV{{K: "Upgrade", V: "websocket"}, {K: "Connection", V: "Upgrade"}, {K: "Sec-WebSocket-Accept", V: "s3pPLMBiTxaQ9kYGzzhZRbK+xOo="}}}
@@ -179,6 +188,16 @@ func (h heldReq) release() {
 	}
 }
 
+// resumeClient lets only the parked client read on; the backend stays as silent as it is.
+func (h heldReq) resumeClient() {
+	if h.resume != nil {
+		func() {
+			defer func() { _ = recover() }()
+			close(h.resume)
+		}()
+	}
+}
+
 // issue performs one request of the given kind and classifies the outcome.
 func issue(l *lab.SocketLab, kind string, client int, t *tally, mu *sync.Mutex, holds *[]heldReq) {
 	id := l.NextCase()
@@ -196,7 +215,16 @@ func issue(l *lab.SocketLab, kind string, client int, t *tally, mu *sync.Mutex, 
 	mu.Lock()
 	t.sent++
 	mu.Unlock()
+	reachedLive := func() bool {
+		for _, ex := range exs {
+			if lab.SeenOf(ex) != nil {
+				return true
+			}
+		}
+		return false
+	}
 	classify := func(out *lab.RawResponse, err error) {
+		reached := (kind == "hold" || kind == "slow-backend") && reachedLive()
 		mu.Lock()
 		defer mu.Unlock()
 		if err != nil || out == nil || out.Status == 0 || out.BodyErr != "" {
@@ -212,6 +240,9 @@ func issue(l *lab.SocketLab, kind string, client int, t *tally, mu *sync.Mutex, 
 			t.breakerRejected++
 		case out.Status == 503 && strings.Contains(body, "No healthy backend"):
 			t.noHealthy++
+		case out.Status == 502 && reached:
+			// the proxy's own answer for a request that a live backend had received and never answered
+			t.timedOut++
 		case out.Status == 502:
 			t.bad502++
 		}
@@ -344,7 +375,7 @@ func issue(l *lab.SocketLab, kind string, client int, t *tally, mu *sync.Mutex, 
 		}
 		cc.Close()
 		classify(out, err)
-	case "hold":
+	case "hold", "slow-backend":
 		done := make(chan struct{})
 		go func() {
 			out, err := lab.Do(l.Addr, req, 60*time.Second)
@@ -586,15 +617,35 @@ func TestC13Accounting(t *testing.T) {
 	sub.Floor("parked-mid-body", 0.12)
 	sub.Floor("parked-client-not-reading", 0.12)
 	lab.Assume("L2 socket lab; Helios-generated answers are classified by their documented text (rate limit / circuit breaker / no healthy backend); a quiescent reading is two equal consecutive metric reads with no backend handler running (3 s budget, else the batch is skipped and counted)")
-	lab.Check(t, sub, 1200, 24000, func(rt *rapid.T) {
+	lab.Check(t, sub, 1200, 24000, func(rt *rapid.T) { accountingBatch(rt, sub, false) })
+}
+
+// TestC13HandlerTimeout: the same batches in a deployment with server.timeouts.handler = 1 s (the documented
+// minimum), with backends that stay silent before their response head among the kinds. Every such batch costs
+// a second of real time, hence few of them.
+func TestC13HandlerTimeout(t *testing.T) {
+	sub := lab.Sub("accounting-handler-timeout", "rapid: labs and batches as in accounting-batches, with server.timeouts.handler = 1 s and the additional kind 'backend has read the request and stays silent' (a third of the requests); nobody releases a parked request: "+
+		"the clients read on and the handler timeout ends every exchange that is still running (silent before the head: the proxy answers 502 itself; parked after the head / mid-body / client not reading: the response is aborted); "+
+		"books A1-A4 read at quiescence after that: every such request is one completed request of the backend it was sent to, gauges 0; non-trivial = at least one request that a live backend had received was answered by the proxy's own 502")
+	sub.NontrivialFloor(0.6)
+	lab.Check(t, sub, 16, 640, func(rt *rapid.T) { accountingBatch(rt, sub, true) })
+}
+
+func accountingBatch(rt *rapid.T, sub *lab.SubCheck, handlerTimeout bool) {
+	{
 		bc := batchCfg{Strategy: rapid.SampledFrom(lab.Strategies).Draw(rt, "strategy"), Backends: rapid.IntRange(1, 3).Draw(rt, "backends"),
 			Dead: rapid.IntRange(0, 3).Draw(rt, "dead") == 0, Limiter: rapid.Bool().Draw(rt, "limiter"), Breaker: rapid.IntRange(0, 2).Draw(rt, "breaker") == 0,
 			Passive: rapid.IntRange(0, 2).Draw(rt, "passive") == 0}
 		bc.Concurrent = rapid.SampledFrom([]int{1, 1, 2, 4, 8, 16, 64}).Draw(rt, "concurrent")
+		batchKinds := kinds
+		if handlerTimeout {
+			bc.HandlerTimeout = 1
+			batchKinds = append(append([]string(nil), kinds...), "slow-backend", "slow-backend", "slow-backend", "slow-backend", "slow-backend", "slow-backend")
+		}
 		n := rapid.IntRange(5, 40).Draw(rt, "n")
 		batch := make([]string, n)
 		for i := range batch {
-			batch[i] = rapid.SampledFrom(kinds).Draw(rt, "kind")
+			batch[i] = rapid.SampledFrom(batchKinds).Draw(rt, "kind")
 			if batch[i] == "hold" {
 				batch[i] = genHold(rt)
 			}
@@ -615,6 +666,9 @@ func TestC13Accounting(t *testing.T) {
 				cfg.HealthChecks.Passive = config.PassiveHealthCheckConfig{Enabled: true, UnhealthyThreshold: 3, UnhealthyTimeout: 3600}
 			}
 			cfg.Server.Timeouts.BackendDial = 1
+			if bc.HandlerTimeout > 0 {
+				cfg.Server.Timeouts.Handler = bc.HandlerTimeout
+			}
 		}})
 		if err != nil {
 			rt.Fatalf("harness: %v", err)
@@ -664,8 +718,33 @@ func TestC13Accounting(t *testing.T) {
 				}
 			}
 		}
-		viol := checkBooks(l, bc, tl, parkedPer, bc.Dead)
-		if viol == "" {
+		var viol string
+		if bc.HandlerTimeout > 0 {
+			// Nobody releases a backend: the parked clients read on and the handler timeout ends every exchange
+			// that is still running (before the head: the proxy answers itself; after the head: the response
+			// is aborted). Each of them is from then on a completed request of the backend it was sent to.
+			// (The books are not read while they are parked here: the timeout is already running.)
+			for _, h := range stillHeld {
+				h.resumeClient()
+			}
+			ended := true
+			for _, h := range stillHeld {
+				select {
+				case <-h.done:
+				case <-time.After(ioDeadline):
+					ended = false // the timeout itself is not this property's subject
+				}
+			}
+			for _, h := range stillHeld {
+				h.release()
+			}
+			for _, h := range stillHeld {
+				<-h.done
+			}
+			if viol = checkBooks(l, bc, tl, map[int]int{}, bc.Dead); viol != "" {
+				viol = fmt.Sprintf("after the %d s handler timeout ended the exchanges with silent backends (all ended by it: %v): %s", bc.HandlerTimeout, ended, viol)
+			}
+		} else if viol = checkBooks(l, bc, tl, parkedPer, bc.Dead); viol == "" {
 			for _, h := range stillHeld {
 				h.release()
 			}
@@ -736,11 +815,20 @@ func TestC13Accounting(t *testing.T) {
 		if tl.limited > 0 {
 			labels = append(labels, "rate-limited")
 		}
+		if bc.HandlerTimeout > 0 {
+			labels = append(labels, "handler-timeout-1s")
+		}
+		if tl.timedOut > 0 {
+			labels = append(labels, "silent-backend-cut-off-by-handler-timeout")
+		}
 		var kk []string
 		for k := range ks {
 			kk = append(kk, k)
 		}
 		sort.Strings(kk)
+		if handlerTimeout {
+			nt = tl.timedOut > 0
+		}
 		sub.Case(map[string]any{"lab": bc, "batch": batch}, nt, labels...)
 		if viol != "" {
 			rt.Fatalf("lab %+v batch %v tally %+v: %s", bc, batch, tl, viol)
@@ -748,7 +836,7 @@ func TestC13Accounting(t *testing.T) {
 		if p := l.PanicLines(); len(p) > 0 {
 			rt.Fatalf("handler panicked: %v", p)
 		}
-	})
+	}
 }
 
 func deadCount(bc batchCfg) int {
